@@ -764,8 +764,13 @@ func gen(c *core.Ctx) error {
 		if key, txt := judge(sp, o); key != "" {
 			fails[key]++
 			if fails[key] <= 3 {
-				c.OracleFail("c03-"+key, fmt.Sprintf("%s role=%s policy{auth=%s enc=%s integ=%s %v %v} peer=%s", txt, sp.Kind,
-					sp.Cfg.Auth, sp.Cfg.Enc, sp.Cfg.Integ, sp.Cfg.Methods, sp.Cfg.Ciphers, sp.Tag), sp)
+				def := ""
+				if sp.Def != nil {
+					def = fmt.Sprintf(" (per-command policy; authenticator default{auth=%s enc=%s integ=%s %v %v})",
+						sp.Def.Auth, sp.Def.Enc, sp.Def.Integ, sp.Def.Methods, sp.Def.Ciphers)
+				}
+				c.OracleFail("c03-"+key, fmt.Sprintf("%s role=%s policy{auth=%s enc=%s integ=%s %v %v}%s peer=%s", txt, sp.Kind,
+					sp.Cfg.Auth, sp.Cfg.Enc, sp.Cfg.Integ, sp.Cfg.Methods, sp.Cfg.Ciphers, def, sp.Tag), sp)
 			}
 		}
 		bt.add(caseTerm(sp, o), sp)
